@@ -233,5 +233,7 @@ def parts(tier):
     ps.append(Part("random", strategy=lambda t: S.model_spec(kinds=KINDS, depth=3 if t == "quick" else 4, max_int=0, max_bool=5,
                                                              positive_only=True, min_leaves=2).map(lambda s: {"model": s}),
                    check=check_ast, quick=(6, 150), thorough=(12, 3000)))
+    ps.append(Part("negated_thresholds", strategy=lambda t: S.negation_focus_spec(int_leaves=False, depth=2 if t == "quick" else 3)
+                   .map(lambda s: {"model": s}), check=check_ast, quick=(2, 200), thorough=(4, 3000)))
     ps.append(Part("cicje", strategy=lambda t: cicje_case(t), check=check_cicje, quick=(2, 250), thorough=(4, 4000)))
     return ps
